@@ -149,6 +149,8 @@ CLASSES = [
     E('base.h2e', [V((2, 3, 4))], tags={'nolength', 'forms3'}), E('base.e2h', [V((2, 3))], tags={'nolength', 'forms3'}),
     # one angle per twist: a vector of angles for an object holding three twists has three elements
     E('m:Twist3.exp', [V(3)], recv=('OBJM', 'Twist3')), E('m:Twist2.exp', [V(3)], recv=('OBJM', 'Twist2')),
+    # the bounds of a volume: "6-element array_like"
+    E('m:Plucker.intersect_volume', [V(6)], recv=('OBJ', 'Plucker')),
 ]
 
 
@@ -190,11 +192,12 @@ def gen_value(rng, spec, n=None):
     if k == 'A':
         return float(rng.uniform(-3, 3)) if rng.random() < 0.7 else gen.angle(rng)
     if k == 'S':
-        return float(gen.sign(rng) * gen.logu(rng, 1e-2, 1e2))
+        return float(gen.sign(rng) * gen.logu(rng, 1e-2, 1e2)) if rng.random() > 0.06 else float(gen.sign(rng))
     if k == 'SPOS':
         return float(gen.logu(rng, 1e-2, 1e2))
     if k == 'S01':
-        return float(rng.random())
+        r_ = rng.random()
+        return 0.0 if r_ < 0.12 else 1.0 if r_ < 0.24 else float(rng.random())     # (the two ends are where shortcuts live)
     if k == 'I':
         return int(rng.integers(-4, 5))
     if k == 'U':
